@@ -336,7 +336,11 @@ func simulatePending(placed []*block, dirBlock map[*Dir]*block, valBlock map[*Di
 			consumed = 1
 		}
 	}
+	skipped := map[*Dir]bool{} // a chained directory the reader never visits: neither entered nor its values pending
 	for _, b := range sorted {
+		if (b.dir != nil && skipped[b.dir]) || (b.dir == nil && b.owner != nil && skipped[b.owner]) {
+			continue
+		}
 		if b.dir == nil {
 			if noteTags > 0 && b.owner != nil && b.owner.Entries[b.ei].Tag == 0x927c {
 				// a maker note the reader follows: a directory whose values lie inside the note
@@ -362,6 +366,9 @@ func simulatePending(placed []*block, dirBlock map[*Dir]*block, valBlock map[*Di
 			if held > max {
 				max = held
 			}
+		}
+		if d.Next != nil && b == sorted[0] && held >= 2 {
+			skipped[d.Next] = true
 		}
 		if d.Next != nil && (b != sorted[0] || held < 2) {
 			// the pointer to a chained directory takes a slot - but the reader looks at it (in the
